@@ -785,8 +785,12 @@ func Main(c *Check) {
 		"violations":  nviol,
 	}
 	eb, _ := json.MarshalIndent(ev, "", " ")
-	os.MkdirAll(filepath.Join(Root(), "evidence"), 0755)
-	if err := os.WriteFile(filepath.Join(Root(), "evidence", c.ID+".json"), eb, 0644); err != nil {
+	evDir := filepath.Join(Root(), "evidence")
+	if d := os.Getenv("VERIF_EVIDENCE_DIR"); d != "" {
+		evDir = d // runs against deliberately broken trees must not overwrite the evidence
+	}
+	os.MkdirAll(evDir, 0755)
+	if err := os.WriteFile(filepath.Join(evDir, c.ID+".json"), eb, 0644); err != nil {
 		fmt.Fprintln(os.Stderr, err)
 		os.Exit(2)
 	}
